@@ -1,2 +1,82 @@
-(* placeholder while the proofs are in progress *)
+(* C14 - Merkle collection reports every new or changed node, once.
+   Property theorems only (lemmas in proofs/MerkleStep.v, MerkleCollect.v).
+
+   Vocabulary: as in Props/C10.v.  Ghost state: the list [rep] of reports
+   (representative kept by the returned Python set, hash, node it stands for)
+   made by all collects so far; [rp] is the set oracle - which of several nodes
+   that are == and hash alike the set keeps - universally quantified;
+   [greach NH rp s rep] = (s, rep) is reached from the empty heap by a guarded
+   history; [gstep] = one step, reports appended. *)
+From Coq Require Import List NArith Arith.
+From SWH.lib Require Import Bytes.
 From SWH.model Require Import Merkle.
+From SWH.proofs Require Import MerkleBase MerkleInv MerkleStep MerkleWitness.
+Import ListNotations.
+Local Open Scope nat_scope.
+
+(* The invariant - C10's, plus (I5): every collected node has a report carrying
+   its current cached (hence fresh) hash - is preserved by every guarded
+   operation of {new, set, replace, delete, bulk update, read hash, forced
+   update, entries, to_model, collect, reset}, for every set oracle. *)
+Theorem C14_inv_step : forall NH : bytes -> list entry -> bytes,
+  (forall d es, NH d es <> []) ->
+  forall (rp : set_oracle) (s : heap) (rep : list report) (o : op),
+  InvC NH s rep -> guard NH true s o ->
+  InvC NH (fst (gstep NH rp s rep o)) (snd (gstep NH rp s rep o)).
+Proof. exact gstep_inv. Qed.
+Print Assumptions C14_inv_step.
+
+(* Completeness: at any point of any guarded history, right after collect(root)
+   every node n in the sub-DAG of root has a report (m, hv, n) where hv is the
+   from-scratch hash of n in the current structure (m is the node the set kept
+   for n: n itself or a node that was == n with the same hash when reported). *)
+Theorem C14_complete : forall NH : bytes -> list entry -> bytes,
+  (forall d es, NH d es <> []) ->
+  forall (rp : set_oracle) (s : heap) (rep : list report) (root : nat),
+  greach NH rp s rep -> guard NH true s (OCollect root) ->
+  let s' := fst (gstep NH rp s rep (OCollect root)) in
+  let rep' := snd (gstep NH rp s rep (OCollect root)) in
+  forall n, Reach s' root n -> exists hv m, Fresh NH s' n hv /\ In (m, hv, n) rep'.
+Proof. exact collect_complete. Qed.
+Print Assumptions C14_complete.
+
+(* Once: collecting again without an intervening change returns nothing and
+   changes nothing. *)
+Theorem C14_idempotent : forall NH : bytes -> list entry -> bytes,
+  (forall d es, NH d es <> []) ->
+  forall (rp : set_oracle) (s : heap) (rep : list report) (root : nat),
+  greach NH rp s rep -> guard NH true s (OCollect root) -> root < length s ->
+  let s' := fst (step NH true s (OCollect root)) in
+  step NH true s' (OCollect root) = (s', OutNodes []).
+Proof. exact collect_idempotent. Qed.
+Print Assumptions C14_idempotent.
+
+(* After reset_collect(root), collect(root) succeeds and returns every node of
+   the sub-DAG of root (before the set's deduplication). *)
+Theorem C14_reset : forall NH : bytes -> list entry -> bytes,
+  (forall d es, NH d es <> []) ->
+  forall (rp : set_oracle) (s : heap) (rep : list report) (root : nat),
+  greach NH rp s rep -> guard NH true s (OReset root) -> root < length s ->
+  let s1 := fst (step NH true s (OReset root)) in
+  exists L, snd (step NH true s1 (OCollect root)) = OutNodes L /\
+            forall n, Reach s1 root n -> In n L.
+Proof. exact reset_then_collect. Qed.
+Print Assumptions C14_reset.
+
+(* Meaning of a report under a legitimate set oracle: the representative was
+   in the returned collection, == the node it stands for, with the same hash. *)
+Theorem C14_reports_sound : forall rp : set_oracle, oracle_ok rp ->
+  forall (s' : heap) (L : list nat) (m : nat) (hv : bytes) (n : nat),
+  In (m, hv, n) (reports rp s' (OutNodes L)) ->
+  In m L /\ In n L /\ node_eqb (S (length s')) s' m n = true /\ hash_of s' m = hv /\ hash_of s' n = hv.
+Proof. exact reports_sound. Qed.
+Print Assumptions C14_reports_sound.
+
+(* Non-vacuity: the identity is a legitimate set oracle; the 23-step diamond
+   history (4 collects, 1 reset, mutations in between) is guarded and produces
+   at least 10 reports. *)
+Theorem C14_guards_satisfiable :
+  oracle_ok id_oracle /\ (forall d es, NH0 d es <> []) /\ guarded NH0 true [] h_diamond /\
+  10 <=? length (snd (grun NH0 true id_oracle [] [] h_diamond)) = true.
+Proof. exact c14_satisfiable. Qed.
+Print Assumptions C14_guards_satisfiable.
